@@ -90,6 +90,15 @@ func (r *recorder) call(fn string, in system.Collection, args ...any) (system.Co
 	return nil, nil
 }
 
+type ptrErr struct{ msg string }
+
+func (e *ptrErr) Error() string { return e.msg }
+
+type wideErr interface {
+	error
+	Code() int
+}
+
 // fixture returns the Go value handed to compopts.AddFunction for fixture fx.
 func fixture(fx, name string, r *recorder) any {
 	type C = system.Collection
@@ -134,6 +143,10 @@ func fixture(fx, name string, r *recorder) any {
 		return func(in C) (C, error, int) { c, e := r.call(name, in); return c, e, 0 }
 	case "outFakeErr":
 		return fakeerr.Fn
+	case "outErrPtr": // a concrete type that implements error is not the error interface: a nil *ptrErr would come out non-nil
+		return func(in C) (C, *ptrErr) { c, _ := r.call(name, in); return c, nil }
+	case "outErrWide": // nor is a wider interface that embeds it
+		return func(in C) (C, wideErr) { c, _ := r.call(name, in); return c, nil }
 	}
 	lib.Fatal("unknown fixture %q", fx)
 	return nil
